@@ -345,7 +345,7 @@ func (b *Reader) ReadSlice(delim byte) (line []byte, err error) {
 			line := b.buf[0 : n+i+1]
 			b.r = n + i + 1
 
-			b.TotalRead += i + 1
+			b.TotalRead += n + i + 1
 
 			return line, nil
 		}
@@ -385,6 +385,9 @@ func (b *Reader) ReadLine() (line []byte, isPrefix bool, err error) {
 				panic("bfe_bufio: tried to rewind past start of buffer")
 			}
 			b.r--
+			if b.TotalRead > 0 {
+				b.TotalRead--
+			}
 			line = line[:len(line)-1]
 		}
 		return line, true, nil
@@ -714,6 +717,7 @@ func (b *Writer) ReadFrom(r io.Reader) (n int64, err error) {
 	for {
 		if b.Available() == 0 {
 			if err1 := b.flush(); err1 != nil {
+				b.TotalWrite += int(n)
 				return n, err1
 			}
 		}
